@@ -144,10 +144,12 @@ func concStage(seed int64, goroutines int, maxProbes int64, maxDur time.Duration
 				var rc *rec
 				if res != nil {
 					atomic.AddInt64(&row.Reported, 1)
-					if sr, ok := res.(*socks5.ScanResult); ok {
+					if sr, ok := res.(*socks5.ScanResult); ok && sr != nil {
 						rc = &rec{IP: sr.IP, Port: int(sr.Port), Version: sr.Version, Scan: sr.ScanType}
 					}
 					switch {
+					case typedNil(res):
+						what = fmt.Sprintf("answered with err == nil and a scan.Result that is != nil but holds a nil %T (the engine emits it as a record; printing it panics) although its peer answered %v", res, p.Reply)
 					case !want:
 						what = fmt.Sprintf("reported although its peer answered %v, not 05 00", p.Reply)
 					case rc == nil || rc.IP != p.IP || rc.Port != p.Port:
